@@ -392,6 +392,7 @@ def scn_transform():
     ns["tdn"] = xr.DataArray(np.array([[0.0, 1.0, 2.0], [5.0, 3.0, 1.0]]), dims=["x", "zc"], name="dens")
     ns["tdo"] = xr.DataArray(np.array([[0.0, 1.0, 2.0, 3.0], [6.0, 4.0, 2.0, 0.0]]), dims=["x", "zo"], name="densb")
     ns["tdp"] = xr.DataArray(np.array([[1.0, 2.0, 4.0], [8.0, 4.0, 2.0]]), dims=["x", "zc"], name="p")
+    ns["tdz"] = xr.DataArray(np.array([[0.0, 2.0, 4.0], [8.0, 4.0, 0.0]]), dims=["x", "zc"], name="pz")  # a zero at one end (surface pressure)
     ns["lev"] = np.array([0.5, 1.5, 4.0])
     ns["levda"] = xr.DataArray([0.5, 1.5, 4.0], dims=["lev"], name="lev")
     ns["bins"] = np.array([0.0, 1.0, 2.5, 6.0])
@@ -401,6 +402,8 @@ def scn_transform():
     ops["lin_named"] = lambda n: n["g"].transform(n["da"], "Z", n["levda"], target_data=n["tdn"], mask_edges=False)
     ops["lin_default"] = lambda n: n["g"].transform(n["da"], "Z", n["lev"])
     ops["log"] = lambda n: n["g"].transform(n["da"], "Z", n["lev"], target_data=n["tdp"], method="log")
+    ops["log_zero_end"] = lambda n: n["g"].transform(n["da"], "Z", n["lev"], target_data=n["tdz"], method="log")
+    ops["lin_zero_end"] = lambda n: n["g"].transform(n["da"], "Z", n["lev"], target_data=n["tdz"])
     ops["cons_outer"] = lambda n: n["g"].transform(n["da"], "Z", n["bins"], target_data=n["tdo"], method="conservative")
     ops["cons_center"] = lambda n: n["g"].transform(n["da"], "Z", n["bins"], target_data=n["tdn"], method="conservative")
     ops["cons_unnamed"] = lambda n: n["g"].transform(n["da"], "Z", n["bins"], target_data=n["td"], method="conservative")
